@@ -698,7 +698,12 @@ func (f *Frame) applyModifies(con *Contract, env *Env, st *State, reach Term, po
 					f.vc.assumeOwned(fv, T(sBool, "(forall ((i!q Int)) (! (< (alloc (select %[1]s i!q)) %[2]s) :pattern ((select %[1]s i!q))))", fv.S, n.now.S))
 				}
 			}
-			n.set(tg.key, f.vc.define(tg.key, T(old.Sort, "(store %s %s %s)", old.S, tg.ref.S, fv.S)))
+			if tg.guard != nil {
+				// an empty target (elements of a slice without capacity) is not written at all
+				n.set(tg.key, f.vc.define(tg.key, T(old.Sort, "(ite %s (store %s %s %s) %s)", tg.guard.S, old.S, tg.ref.S, fv.S, old.S)))
+			} else {
+				n.set(tg.key, f.vc.define(tg.key, T(old.Sort, "(store %s %s %s)", old.S, tg.ref.S, fv.S)))
+			}
 		}
 	}
 	return n
